@@ -143,10 +143,58 @@ def lib_params(pspec, lib=None, cache=True):
     if kind in lib.shipped and s == DEFAULT_SEEDS:
         return lib.shipped[kind]
     if not cache:
-        return lib.params._Params(lib_group(pspec["group"], lib), M=s["M"], N=s["N"], S=s["S"])
+        return _ephemeral_params(lib.params._Params, lib_group(pspec["group"], lib), s)
     if k not in _lib_params:
         _lib_params[k] = lib.params._Params(lib_group(pspec["group"], lib), M=s["M"], N=s["N"], S=s["S"])
     return _lib_params[k]
+
+
+# Ephemeral parameter sets and object identity.  A memo keyed by id(params) that holds no reference
+# goes wrong when a dead object's address is handed out again.  Whether CPython does that at a given
+# moment depends on allocator history, which must not decide a run: a new ephemeral set is therefore
+# placed ON the address of a dead one whenever the allocator still has that block free (ordinary
+# construction - __new__ then __init__ - repeated until the wanted block comes up; the by-catch is
+# released afterwards).  Only integers (addresses) of dead objects are remembered, never the objects.
+_EPHEMERAL_LIVE = []     # [(weakref, address)]
+_EPHEMERAL_DEAD = []     # addresses
+
+
+def _ephemeral_params(cls, group, s):
+    import gc
+    import weakref
+    gc.collect()
+    still = []
+    for wr, addr in _EPHEMERAL_LIVE:
+        if wr() is None:
+            _EPHEMERAL_DEAD.append(addr)
+        else:
+            still.append((wr, addr))
+    _EPHEMERAL_LIVE[:] = still
+    del _EPHEMERAL_DEAD[:-32]
+    obj = None
+    try:
+        if _EPHEMERAL_DEAD:
+            dead = set(_EPHEMERAL_DEAD)
+            spare = []
+            for _ in range(256):
+                o = cls.__new__(cls)
+                if id(o) in dead:
+                    obj = o
+                    break
+                spare.append(o)
+            del spare
+        if obj is None:
+            obj = cls.__new__(cls)
+        obj.__init__(group, M=s["M"], N=s["N"], S=s["S"])
+    except TypeError:
+        obj = cls(group, M=s["M"], N=s["N"], S=s["S"])
+    if id(obj) in _EPHEMERAL_DEAD:
+        _EPHEMERAL_DEAD.remove(id(obj))
+    try:
+        _EPHEMERAL_LIVE.append((weakref.ref(obj), id(obj)))
+    except TypeError:
+        pass
+    return obj
 
 
 def reset_caches():
